@@ -292,6 +292,16 @@ func TestPropConcurrentUse(t *testing.T) {
 		}
 		var shared []*pipeline.CommandStep
 		walk(ps.Steps, func(cs *pipeline.CommandStep) { shared = append(shared, cs) })
+		// a signature names its fields in any order (the payload is a canonicalised object): half the
+		// time the shared steps carry their field lists in a drawn order, as another signer may write them
+		if rapid.Bool().Draw(t, "shufflefields") {
+			for _, cs := range shared {
+				if cs.Signature != nil && len(cs.Signature.SignedFields) > 1 {
+					cs.Signature.SignedFields = rapid.Permutation(cs.Signature.SignedFields).Draw(t, "fieldorder")
+				}
+			}
+			rec.Class("shared-signatures-with-unsorted-field-lists")
+		}
 		// a second shared pipeline that nothing has observed yet (signing above has already walked ps):
 		// its expected snapshot and bytes come from a twin parse of the same text
 		pu, _ := pipeline.Parse(bytes.NewReader(d.YAML))
